@@ -175,6 +175,12 @@ var preds = map[string]func(any) bool{
 		u, _ := AsUint64(v)
 		return u%3 == 0
 	},
+	"boom": func(v any) bool { // a predicate with a bug: it panics for one value in five
+		if i, ok := AsInt64(v); ok && i%5 == 4 {
+			panic(fmt.Sprintf("predicate cannot handle %d", i%5))
+		}
+		return true
+	},
 	"rare": func(v any) bool { // passes for 1 value in 7: a Filter that often runs out of tries
 		if i, ok := AsInt64(v); ok {
 			return i%7 == 3
@@ -563,6 +569,19 @@ func (e *GenEnv) build(s *GenSpec) *Built {
 		elem := e.buildLocked(s.Elem)
 		pred0 := preds[s.Pred]
 		pred := func(v any) bool { userCallback(); return pred0(v) }
+		if s.Pred == "boom" { // a predicate that panics for some values: record the signal before raising it (the panic falsifies the test case)
+			run := e.run
+			pred = func(v any) bool {
+				if i, ok := AsInt64(v); ok && i%5 == 4 {
+					msg := fmt.Sprintf("predicate cannot handle %d", i%5)
+					if run != nil {
+						run.rec.Emit("call", F{"inv": run.curTop, "m": "panic", "site": 8, "msg": Digest(msg), "g": 0})
+					}
+					panic(msg)
+				}
+				return true
+			}
+		}
 		return &Built{G: elem.G.Filter(pred), Desc: s.K, Check: func(v any) F {
 			f := elem.Check(v)
 			f["filterok"] = pred(v)
